@@ -29,6 +29,12 @@ type Proxy struct {
 	plan atomic.Pointer[CutPlan]
 
 	UpBytes, DownBytes atomic.Int64
+
+	// PauseUp stops forwarding (and reading) the client->server direction: the client's kernel
+	// buffers and then its write queue fill up. ClientRcvBuf > 0 shrinks the receive buffer of
+	// accepted connections so that this takes less data.
+	PauseUp      atomic.Bool
+	ClientRcvBuf int
 }
 
 // CutPlan cuts a connection after a number of bytes in one direction.
@@ -130,6 +136,9 @@ func (p *Proxy) serve(c net.Conn) {
 		c.Close()
 		return
 	}
+	if tc, ok := c.(*net.TCPConn); ok && p.ClientRcvBuf > 0 {
+		tc.SetReadBuffer(p.ClientRcvBuf)
+	}
 	pc := &pconn{c: c, s: s}
 	p.mu.Lock()
 	p.conns[pc] = struct{}{}
@@ -150,6 +159,9 @@ func (p *Proxy) pipe(pc *pconn, src, dst net.Conn, up bool, plan *CutPlan) {
 	buf := make([]byte, 32<<10)
 	var total int64
 	for {
+		for up && p.PauseUp.Load() && !pc.closed.Load() && !p.closed.Load() {
+			time.Sleep(200 * time.Microsecond)
+		}
 		n, err := src.Read(buf)
 		if n > 0 {
 			chunk := buf[:n]
